@@ -46,13 +46,14 @@ Definition view_model (c : sexp) : sexp :=
   L [sList (fun q => sList (sRes sOutcome) (run_view file a b q)) seqs;
      sList (fun q => sList (sRes sOutcome) (run_view iso 0 (b - a) q)) seqs].
 
-(* the property on the implementation's answers: for a window inside the file, the view and the
-   isolated range answer alike, and both as a cursor on that byte string *)
+(* the property on the implementation's answers: for a window that starts inside the file (its end
+   may lie beyond the end of the file), the view and the isolated range answer alike, and both as a
+   cursor on that byte string *)
 Definition view_oracle (c out : sexp) : bool :=
   let file := getBytes (nthS 1 c) in
   let a := getN (nthS 2 c) in
   let b := getN (nthS 3 c) in
-  if (a <=? b) && (b <=? Nlen file) then
+  if (a <=? b) && (a <=? Nlen file) then
     let seqs := case_seqs c in
     let want := sList (fun q => sList (sRes sOutcome) (cursor_run (range file a b) 0 q)) seqs in
     sexp_eqb (nthS 0 out) (nthS 1 out) && sexp_eqb (nthS 0 out) want
